@@ -33,6 +33,7 @@ def m_serialize_serval(ex, a, m):
     v = a[0]
     while isinstance(v, Ptr): v = v.cell.v
     ser = a[1]
+    if isinstance(v, Agg) and v.ty == 'Value': v = value_to_serval(v)          # serde_json's `impl Serialize for Value`
     if not isinstance(v, SerVal):
         # serde's own impls for the primitive std types the crate passes around (&'static str keys, ...)
         if not (isinstance(ser, Agg) and ser.ty == 'Serializer'): return NotImplemented
@@ -297,3 +298,73 @@ def image_mismatch(ex, v, var):
     if k == 'struct_variant':
         inner = obj1(t[3]); return True if inner is None else rec(t[4], inner)
     return True
+
+
+# ------------------------------------------------------------------ serde_json::Value <-> Variable conversions (C08 lossless conversion, C17 specialised paths)
+def value_to_serval(v):
+    """what `impl Serialize for serde_json::Value` emits, as a data-model value"""
+    k = v.variant; f = v.fields
+    if k == 'Null': return SerVal('unit')
+    if k == 'Bool': return SerVal('bool', f[0].v)
+    if k == 'String': return SerVal('str', f[0].v.concrete())
+    if k == 'Number':
+        n = f[0].v
+        return SerVal({'pos': 'u64', 'neg': 'i64', 'float': 'f64'}[n.kind], n.val)
+    if k == 'Array': return SerVal('seq', [value_to_serval(MM.deref_all(c.v)) for c in f[0].v.items])
+    if k == 'Object':
+        mp = f[0].v
+        return SerVal('map', [(SerVal('str', kk), value_to_serval(MM.deref_all(mp.d[kk].v))) for kk in mp.keys()])
+def gen_value(ex, depth, numkinds=('pos', 'neg', 'float'), lean=False):
+    """a serde_json::Value chosen by the solver: shape by forks, numbers fully symbolic"""
+    from .funcjob import choose_from
+    k = choose_from(ex, 'vkind', (['Null', 'Number'] if lean and depth == 0 else ['Null', 'Bool', 'Number', 'String']) + (['Array', 'Object'] if depth > 0 else []))
+    if k == 'Null': return mk_enum('Value', 'Null', [])
+    if k == 'Bool': ex.nfresh += 1; return mk_enum('Value', 'Bool', [Bool(z3.Bool(f'vb!{len(ex.decisions)}_{ex.nfresh}'))])
+    if k == 'Number': return mk_enum('Value', 'Number', [SY.sym_number(ex, None, kinds=numkinds)])
+    if k == 'String': return mk_enum('Value', 'String', [rstr(choose_from(ex, 'vstr', ['', 'a', 'é']))])
+    n = choose_from(ex, 'vlen', [0, 1, 2])
+    if k == 'Array': return mk_enum('Value', 'Array', [VecV([Cell(gen_value(ex, depth - 1, numkinds, lean)) for _ in range(n)])])
+    mp = MapV()
+    for kk in ['b', 'a'][:n]: mp.d[kk] = Cell(gen_value(ex, depth - 1, numkinds, lean))
+    return mk_enum('Value', 'Object', [mp])
+def find_fn(prog, meth, param_type):
+    c = [f for n, f in prog.fns.items() if n.endswith('>::' + meth) and f.params and f.locals[f.params[0]].replace('serde_json::', '').replace('std::rc::', '').replace('variable::', '') == param_type]
+    return c[0] if len(c) == 1 else None
+
+def conv_job(prog, entry, depth, deadline, seed=0):
+    """entry: try_from_ref | try_from_owned | to_jmespath_value | to_jmespath_ref (the last two exist only with --features specialized)"""
+    eng = Engine(prog); eng.deadline = deadline; S = Summary(); XP.init_decls(prog)
+    f = {'try_from_ref': lambda: find_fn(prog, 'try_from', '&Value'), 'try_from_owned': lambda: find_fn(prog, 'try_from', 'Value'),
+         'to_jmespath_value': lambda: find_fn(prog, 'to_jmespath', 'Value'), 'to_jmespath_ref': lambda: find_fn(prog, 'to_jmespath', '&Value')}[entry]()
+    if f is None:
+        S.inconclusive(f'conversion {entry}: function not found in the MIR (feature not enabled?)'); return S
+    def body(ex):
+        v = gen_value(ex, depth, ('pos', 'neg', 'float') if depth <= 1 else ('pos',), lean=depth > 1); ex.u_v = v; ex.u_sv = value_to_serval(v)
+        arg = Ptr(Cell(v), 'ref') if entry.endswith('_ref') else v
+        return ex.run_fn(f, [arg])
+    def on_path(ex, r):
+        S['paths'] += 1; S['outcomes'][r[0]] += 1
+        if r[0] == 'abort': return
+        if r[0] == 'unsupported': S.inconclusive(f'conversion {entry}: ' + XP.short_unsupported(r[1])); return
+        sat, m = eng.check(ex.pc)
+        if not sat: return
+        want = image(ex, ex.u_sv, m); req = {'op': 'value_conv', 'entry': entry, 'value': want}
+        if r[0] == 'panic': S.cand('c05:conversion-panic', f'{entry} panics: {r[1]}', {'value': want}, req, expected='no panic'); return
+        out = r[1]
+        if out.variant != 'Ok': S.cand(f'c08:conversion-{entry}', f'{entry} fails on a JSON value', {'value': want}, req, expected=want); return
+        bad = image_mismatch(ex, ex.u_sv, out.fields[0].v)
+        if bad is True or (bad is not None and eng.check(ex.pc + [bad])[0]):
+            m2 = m
+            if bad is not True: _, m2 = eng.check(ex.pc + [bad])
+            want = image(ex, ex.u_sv, m2); got = SY.tagged(ex, out.fields[0].v, m2)
+            S.cand(f'c08:conversion-{entry}', f'{entry} does not keep the JSON value', {'value': want, 'got': got}, {'op': 'value_conv', 'entry': entry, 'value': want}, expected=want); return
+        S['vacuity'][f'{entry} agrees'] = True
+        if (S['paths'] + seed) % 9 == 0:
+            a = XP.worker_native().request(req)
+            if a.get('kind') == 'ok' and a.get('equal'): S['replayed'] += 1
+            elif a.get('kind') != 'skipped': S['mismatches'].append({'harness': 'conversion', 'entry': entry, 'value': want, 'native': a})
+            S.sample({'harness': 'Value conversion ' + entry, 'value': want}, cap=2)
+    n, rest = eng.explore(body, on_path, max_paths=30000)
+    if rest: S.inconclusive(f'conversion {entry}: cap/deadline after {n} paths')
+    S.absorb_engine(eng)
+    return S
